@@ -160,6 +160,22 @@ func HarnessC03_missing() {
 	// and through $parent
 	vfsAddFile("y.yaml", map[string]any{"$parent": "nothere", "a": 1})
 	vAssert("C03.missing.parent", c03Layers("y.yaml").err)
+	// a $parent list (or several documents' $parent) in which one name
+	// resolves and another names no file, in either order, plain or wildcard
+	vfsAddFile("here.yaml", map[string]any{"$parent": false, "h": 1})
+	ghost := []string{"nothere", "nothere.*", "here.*", "he*e.x"}[ndChoice(4)]
+	var lst []any
+	if ndChoice(2) == 0 {
+		lst = []any{"here", ghost}
+	} else {
+		lst = []any{ghost, "here"}
+	}
+	if ndChoice(2) == 0 {
+		vfsAddFile("z.yaml", map[string]any{"$parent": lst, "a": 1})
+	} else {
+		vfsAddFile("z.yaml", map[string]any{"$parent": lst[0], "a": 1}, map[string]any{"$parent": lst[1], "b": 1})
+	}
+	vAssert("C03.missing.parentlist", c03Layers("z.yaml").err)
 	vCover("missing.checked")
 }
 
